@@ -5,6 +5,8 @@ mod conc;
 mod families;
 mod fstest;
 mod lin;
+mod mup;
+use mc_store::faultstore;
 mod sched;
 mod seq;
 mod xplore;
@@ -200,6 +202,21 @@ fn main() {
 	oracle_self_check();
 	let mut capped_any = false;
 
+	// ------------------------------------------------------------------ (b) MonitorUpdatingPersister crash consistency
+	if part == "all" || part == "mup" {
+		let t0 = Instant::now();
+		let (j, vs) = mup::run(thorough, args.threads);
+		if violations.is_empty() && vs.is_empty() {
+			let ok = j["recoveries_with_updates_applied"].as_u64().unwrap_or(0) > 0 && j["lazy_losses_considered"].as_u64().unwrap_or(0) > 0 && j["faulted_runs_in_which_the_node_aborted"].as_u64().unwrap_or(0) > 0;
+			if !ok {
+				bail(&wd, "vacuity: MonitorUpdatingPersister part never recovered with updates applied / never lost a lazy deletion / never aborted on a fault");
+			}
+		}
+		eprintln!("[mup] {} recoveries over {} crash images, {} faulted runs, {:.1}s", j["recoveries"], j["crash_images"], j["faulted_runs"], t0.elapsed().as_secs_f64());
+		ev.set("b_monitor_updating_persister", j);
+		ev.sample(json!({"part": "mup", "history": "pay-claim", "max_pending": 3, "prefix": 7, "lost_lazy": [5]}), 12);
+		violations.extend(vs);
+	}
 	// ------------------------------------------------------------------ (b, store side) faultstore
 	if part == "all" || part == "fault" {
 		let t0 = Instant::now();
